@@ -32,6 +32,11 @@ def draw(rng, kinds=("isa", "casc", "corpus", "mut", "isamut"), weights=None):
     if kind == "deep":
         prog = G.gen_deep_cascade(rng)
         return {"kind": kind, "files": {"main.asm": G.render(prog)}, "roots": ["main.asm"], "std": False, "tag": "deep", "prog": prog}
+    if kind == "ifs":
+        from gen import ifs
+        g = ifs.Gen(rng)
+        src = ifs.render(g.body(rng.choice([1, 2, 2, 3]), top=True)) + "\n"
+        return {"kind": kind, "files": {"main.asm": src}, "roots": ["main.asm"], "std": False, "tag": "ifs"}
     if kind == "chain":
         from gen import chains
         src, want, info = chains.gen_padding_chain(rng)
